@@ -794,6 +794,29 @@ Proof.
   - tauto.
 Qed.
 
+(* ---- sequences of calls on one Topology *)
+Lemma spt_pure guard o t from : fst (spt guard o t from) = t.
+Proof. reflexivity. Qed.
+
+Lemma spt_seq_runs guard t calls :
+  spt_seq guard t calls = map (fun c => spt_run guard (fst c) t (snd c)) calls.
+Proof.
+  induction calls as [|[o from] calls IH]; cbn [spt_seq map fst snd]; [reflexivity|].
+  unfold spt. now rewrite IH.
+Qed.
+
+Theorem spt_correct_sequence : forall nodes es W calls,
+  in_domain nodes es W -> no_overflow nodes W ->
+  Forall (fun c => oracle_ok (fst c) /\ In (snd c) nodes) calls ->
+  Forall2 (fun c out => exists spt, out = Ok spt /\ result_ok nodes es (snd c) spt)
+          calls (run_seq true nodes es calls).
+Proof.
+  intros nodes es W calls Hd Hov Hc. unfold run_seq. rewrite spt_seq_runs.
+  induction Hc as [|[o from] calls [Ho Hs] Hc IH]; cbn [map fst snd]; constructor; auto.
+  cbn [fst snd] in *. destruct (spt_correct nodes es W from o Hd Hov Hs Ho) as (spt & A & B).
+  exists spt. split; auto.
+Qed.
+
 (* never panics, never runs out of fuel *)
 Corollary spt_no_panic : forall nodes es W src o,
   in_domain nodes es W -> no_overflow nodes W -> In src nodes -> oracle_ok o ->
